@@ -18,3 +18,4 @@ open Biogo.Properties.C05
 #print axioms revcomp_involutive_alignment
 #print axioms reverse_involutive_alignment
 #print axioms clone_deep_alignment
+#print axioms history_observes_runOps
